@@ -582,6 +582,9 @@ func c36DateType() *c36Type {
 		if d == "0000-00-00" {
 			tags = append(tags, "date_zero")
 		}
+		if strings.HasPrefix(d, "0001-") {
+			tags = append(tags, "date_year_lt_1000")
+		}
 		return c36Val{lit: "'" + d + "'", key: "dt:" + d, tags: tags}
 	}
 	t.obs = func(q string) []string { return []string{"CAST(" + q + " AS CHAR)"} }
@@ -609,9 +612,12 @@ func c36DatetimeType(prec int, timestamp bool) *c36Type {
 		tm = []string{"00:00:00", "23:59:59", "12:34:56", "01:30:00", "02:30:00", "00:00:01"}[rapid.IntRange(0, 5).Draw(rt, label+".t")]
 		s := d + " " + tm + c36Frac(rt, label, prec)
 		var tags []string
+		if strings.HasPrefix(d, "0001-") {
+			tags = append(tags, "date_year_lt_1000")
+		}
 		if !timestamp && rapid.IntRange(0, 14).Draw(rt, label+".zero") == 0 {
 			s = "0000-00-00 00:00:00"
-			tags = append(tags, "datetime_zero")
+			tags = []string{"datetime_zero"}
 		}
 		return c36Val{lit: "'" + s + "'", key: "ts:" + s, tags: tags}
 	}
@@ -877,6 +883,7 @@ type c36Gate struct {
 	noBlockTrigger bool // C36-trigger-block-no-delimiter: no BEGIN…END trigger bodies
 	noEnumDefault  bool // C36-enum-set-default: no DEFAULT on ENUM/SET columns
 	noViewComment  bool // C36-view-trailing-comment: no view body ending in a "-- comment"
+	noEarlyYear    bool // C36-date-year-below-1000: no DATE/DATETIME value with a year in 0001..0999
 	excluded       int
 }
 
@@ -1114,6 +1121,12 @@ func c36GenRows(rt *rapid.T, label string, t *c36Table, g *c36Gate) {
 				if g.noGeoHostile && c36HasTag(v.tags, "geo_quote_bs_byte") {
 					g.excluded++
 					v = c36Val{lit: "ST_GeomFromText('POINT(1 2)')", tags: []string{"geo_value"}}
+				}
+				if g.noEarlyYear && c36HasTag(v.tags, "date_year_lt_1000") {
+					g.excluded++
+					v.lit = strings.Replace(v.lit, "'0001-", "'1001-", 1)
+					v.key = strings.Replace(v.key, ":0001-", ":1001-", 1)
+					v.tags = nil
 				}
 				if g.noYearZero && c36HasTag(v.tags, "year_zero") {
 					g.excluded++
